@@ -361,7 +361,11 @@ class Printer(BasePrinter):
             index = float_str.find("e")
             float_str = float_str[:index] + "0" + float_str[index:]
 
-            parsed_value = type.unpack(type.pack([float(float_str)]), 1)[0]
+            try:
+                parsed_value = type.unpack(type.pack([float(float_str)]), 1)[0]
+            except NotImplementedError:
+                # The type has no packed representation (f80, f128)
+                parsed_value = float(float_str)
 
             if parsed_value == value:
                 self.print_string(float_str)
